@@ -126,6 +126,75 @@ class SymStr:
         return f'<SymStr {self.label}>'
 
 
+class EnvView(dict):
+    """the variables of a frame as seen by a loop specification: the frame's own locals PLUS the variables it declared
+    `nonlocal` (read, written and havoc'd in the enclosing frame that owns them).  Reading also falls back to the
+    enclosing frames for free variables of a closure.  Writes to other names go to the frame's locals."""
+
+    def __init__(self, fr):
+        super().__init__()
+        self.fr = fr
+
+    def _owner(self, name):
+        fr = self.fr
+        if name in fr.nonlocals:
+            f = fr.parent
+            while f is not None:
+                if name in f.locals:
+                    return f.locals
+                f = f.parent
+            return None
+        return fr.locals
+
+    def __contains__(self, name):
+        o = self._owner(name)
+        return o is not None and name in o
+
+    def __getitem__(self, name):
+        o = self._owner(name)
+        if o is not None and name in o:
+            return o[name]
+        f = self.fr.parent
+        while f is not None:
+            if name in f.locals:
+                return f.locals[name]
+            f = f.parent
+        raise KeyError(name)
+
+    def get(self, name, default=None):
+        try:
+            return self[name]
+        except KeyError:
+            return default
+
+    def __setitem__(self, name, val):
+        o = self._owner(name)
+        if o is None:
+            raise NameError(name)
+        o[name] = val
+
+    def keys(self):
+        ks = list(self.fr.locals.keys())
+        ks += [n for n in self.fr.nonlocals if n in self and n not in self.fr.locals]
+        return ks
+
+    def __iter__(self):
+        return iter(self.keys())
+
+    def __len__(self):
+        return len(self.keys())
+
+    def items(self):
+        return [(k, self[k]) for k in self.keys()]
+
+    def pop(self, name, default=None):
+        o = self._owner(name)
+        return o.pop(name, default) if o is not None else default
+
+    def snapshot(self):
+        return {k: self[k] for k in self.keys()}
+
+
 class Frame:
     def __init__(self, fn, parent, globals_):
         self.fn, self.parent, self.globals = fn, parent, globals_
